@@ -548,6 +548,11 @@ unsigned cmb_random_geometric(const double p)
 {
     cmb_assert((p > 0.0) && (p <= 1.0));
 
+    if (p >= 1.0) {
+        /* Certain success, the first trial is it. Do not take the log of zero. */
+        return 1u;
+    }
+
     static CMB_THREAD_LOCAL double prev = 0.0;
     static CMB_THREAD_LOCAL double denom = 0.0;
     if (p != prev) {
